@@ -318,9 +318,16 @@ func (p *Parser) parseStatement() ast.Node {
 	case token.VAR:
 		stmt = p.parseVar()
 	case token.CONST:
-		stmt = p.parseConst()
+		// Avoid storing a typed nil pointer in the interface
+		if constStmt := p.parseConst(); constStmt != nil {
+			stmt = constStmt
+		}
 	case token.RETURN:
-		stmt = p.parseReturn()
+		if returnStmt := p.parseReturn(); returnStmt != nil {
+			stmt = returnStmt
+		} else {
+			p.setTokenError(p.curToken, "invalid return statement")
+		}
 	case token.BREAK:
 		stmt = p.parseBreak()
 	case token.CONTINUE:
